@@ -206,7 +206,7 @@ def case_strategy(draw):
             cols.append(col)
         c.update(cols=cols, flat=(len(ws) == 1 and draw(st.booleans())))
     elif op == "spdiag":
-        c.update(items=[draw(st.one_of(dn_st(m=k_, n=k_), sp_st(m=k_, n=k_))) for k_ in draw(st.lists(st.integers(0, 3), min_size=1, max_size=3))],
+        c.update(items=[draw(st.one_of(dn_st(tc=draw(st.sampled_from("idz")), m=k_, n=k_), sp_st(m=k_, n=k_))) for k_ in draw(st.lists(st.integers(0, 3), min_size=1, max_size=3))],
                  vec=draw(dn_st(n=1)), usevec=draw(st.booleans()))
         if c["usevec"] and draw(st.booleans()):
             # "x is a dense or sparse matrix with a single row or column": sparse vectors, rows as well as columns
